@@ -9,6 +9,7 @@ import (
 	"runtime/debug"
 	"strings"
 	"sync"
+	"sync/atomic"
 	"testing"
 	"testing/synctest"
 	"time"
@@ -95,12 +96,45 @@ const BubbleStalled = "sim: bubble stalled (wall-clock budget exceeded)"
 // after the budget its goroutines are abandoned and a dump of all goroutines is returned for the caller
 // to tell a simulator limitation from a deadlock of the code under test.
 func BubbleWall(t *testing.T, f func(), wall time.Duration) (panicVal any, dump string) {
+	var ticks atomic.Int64 // advanced once per second of simulated time while the body runs
 	done := make(chan any, 1)
-	go func() { done <- Bubble(t, f) }()
-	select {
-	case v := <-done:
-		return v, ""
-	case <-time.After(wall):
+	go func() {
+		done <- Bubble(t, func() {
+			stop := make(chan struct{})
+			defer close(stop)
+			go func() {
+				for {
+					select {
+					case <-stop:
+						return
+					case <-time.After(time.Second):
+						ticks.Add(1)
+					}
+				}
+			}()
+			f()
+		})
+	}()
+	deadline := time.After(wall)
+	hard := time.After(10 * wall)
+	for {
+		select {
+		case v := <-done:
+			return v, ""
+		case <-hard:
+		case <-deadline:
+			// over budget: is the simulated clock still advancing (a slow machine), or has the bubble stopped?
+			t0 := ticks.Load()
+			select {
+			case v := <-done:
+				return v, ""
+			case <-time.After(5 * time.Second):
+			}
+			if ticks.Load() > t0 {
+				deadline = time.After(wall / 2)
+				continue
+			}
+		}
 		buf := make([]byte, 1<<22)
 		n := runtime.Stack(buf, true)
 		return BubbleStalled, string(buf[:n])
